@@ -25,7 +25,7 @@ ASSUMPTIONS = [
     're-assigning the identical object may raise or not; only "the held object did not change" is required',
 ]
 REQUIRED = {'forbidden_attempts': 3000, 'blocks': 500, 'blocks_raised': 100, 'flag_probes': 2000, 'ctor_constant_reference': 50,
-            'ctor_constant_pending_reference': 50, 'library_attempts': 100, 'async_attempts': 100}
+            'ctor_constant_pending_reference': 50, 'library_attempts': 100, 'async_attempts': 100, 'observer_calls': 100}
 
 _st = {}
 
@@ -480,6 +480,30 @@ def run_case(idx, rng, P, rep):
                 if not open_blocks:
                     class_flags(f'after edit_constant(inst{i})')
                     flag_probe(i)
+            elif c < 0.95:
+                # methods that only report (some of them deprecated but supported) change nothing
+                kinds.append('observe')
+                rep.count('observer_calls')
+                o = insts[i]
+                import warnings
+                with warnings.catch_warnings():
+                    warnings.simplefilter('ignore')
+                    how = rng.randrange(6)
+                    if how == 0:
+                        o.param.defaults()
+                    elif how == 1:
+                        o.param.values(), o.param.get_param_values()
+                    elif how == 2:
+                        repr(o), o.param.pprint()
+                    elif how == 3:
+                        o.param.objects('existing'), o.param.objects(instance=False)
+                    elif how == 4:
+                        [o.param.get_value_generator(p) for p in CONST], [o.param.inspect_value(p) for p in CONST]
+                    else:
+                        o.param.params(), type(o).param.values()
+                trace.append(('observe', f'inst{i}', how))
+                for j in range(len(insts)):
+                    check_unchanged(j, f'observer method #{how} on inst{i}')
             else:
                 kinds.append('plain')
                 insts[i].plain = Tok()
